@@ -1,7 +1,7 @@
 """C05 - reference bookkeeping is exact after every completed call (one inductive step from arbitrary Inv state)."""
 from props.common import *   # noqa
 
-MINE = {"store-state", "bookkeeping-not-exact", "result-class", "post-state-differs-from-reference-model",
+MINE = {"store-state:dup-line", "store-state:foreign-line", "store-state:unterminated-line", "store-state:pid-ref-garbled", "store-state:tmp-residue", "store-state:delete-marker-residue", "store-state:foreign-file", "bookkeeping-not-exact", "result-class", "model:bind", "model:obj",
         "instance-state"}
 
 
